@@ -72,11 +72,19 @@ theorem resolve_binds (env : Env) (root : Mod) (scope : List Stmt) (t : Stmt)
         · cases h
     · -- foreign prefix
       rename_i hloc
+      have hl1 : ((splitPrefix t.arg).1 == "") = false := by
+        cases hq : ((splitPrefix t.arg).1 == "") with
+        | false => rfl
+        | true => rw [hq] at hloc; simp at hloc
+      have hl2 : ((splitPrefix t.arg).1 == root.getPrefix) = false := by
+        cases hq : ((splitPrefix t.arg).1 == root.getPrefix) with
+        | false => rfl
+        | true =>
+          rw [beq_iff_eq] at hq
+          rw [hq] at hloc
+          simp at hloc
       have hforeign : isLocalRef root t.arg = false := by
-        unfold isLocalRef
-        rw [Bool.not_eq_true] at hloc
-        rw [Bool.or_eq_false_iff] at hloc ⊢
-        exact ⟨hloc.1, by rw [beq_eq_false_iff_ne] at hloc ⊢; exact fun e => hloc.2 e.symm⟩
+        unfold isLocalRef; rw [hl1, hl2]; rfl
       split at h
       · cases h
       · rename_i ext hext
@@ -85,12 +93,11 @@ theorem resolve_binds (env : Env) (root : Mod) (scope : List Stmt) (t : Stmt)
           simp only [Bound.typedef.injEq] at h
           obtain ⟨_, hr⟩ := h
           subst hr
-          have hfm' := Prod.ext (p := findInModule env (splitPrefix t.arg).2 env.modFuel ext [])
-            (q := (Lookup.found r', (findInModule env (splitPrefix t.arg).2 env.modFuel ext []).2)) hfm rfl
-          obtain ⟨hstar, htd, hscope⟩ := findInModule_sound env _ _ _ _ _ _ hfm'
+          obtain ⟨hstar, htd, hscope⟩ := findInModule_sound' env _ _ _ _ _ hfm
           rw [hscope]
           unfold Registry.findModuleByPrefix at hext
-          rw [if_neg hloc] at hext
+          rw [hl1, hl2] at hext
+          simp only [Bool.or_self, Bool.false_eq_true, if_false] at hext
           split at hext
           · rename_i i hi
             have himp : i ∈ root.imports := List.mem_of_find?_eq_some hi
@@ -101,23 +108,77 @@ theorem resolve_binds (env : Env) (root : Mod) (scope : List Stmt) (t : Stmt)
         · cases h
         · cases h
 
-/-- Non-vacuity of `resolve_binds`: shadowing typedefs at three scopes (module, container, list);
-the reference in the list binds to the list's typedef. -/
-example :
-    let ty := Stmt.mk "type" true "t" "m.yang" 5 20 []
-    let leaf := Stmt.mk "leaf" true "x" "m.yang" 5 10 [ty]
-    let tdL := Stmt.mk "typedef" true "t" "m.yang" 4 10 [Stmt.mk "type" true "int32" "m.yang" 4 20 []]
-    let lst := Stmt.mk "list" true "l" "m.yang" 4 5 [tdL, leaf]
-    let tdC := Stmt.mk "typedef" true "t" "m.yang" 3 10 [Stmt.mk "type" true "int16" "m.yang" 3 20 []]
-    let con := Stmt.mk "container" true "c" "m.yang" 3 1 [tdC, lst]
-    let tdM := Stmt.mk "typedef" true "t" "m.yang" 2 10 [Stmt.mk "type" true "int8" "m.yang" 2 20 []]
-    let m := Stmt.mk "module" true "m" "m.yang" 1 1 [Stmt.mk "prefix" true "p" "m.yang" 1 10 [], tdM, con]
-    match Registry.add {} m with
-    | .ok reg =>
-      (match lookup (Env.of reg) ⟨0, m⟩ [leaf, lst, con, m] ty with
-       | .typedef _ r => r.td == tdL
-       | _ => false) = true
-    | .error _ => False := by
-  decide
+/-- **Unknown, unresolvable or cyclic references are errors.**  If `Type.resolve` returns no error
+for a type statement, then the statement has a finite derivation in the sense of the
+specification: every name on the way (the statement's own, those of the typedefs it is derived
+from, those of all union member types, recursively) binds as `Binds` says, down to built-in types.
+Contrapositive: a reference to a name or prefix that binds to nothing, a typedef whose own type
+cannot be resolved, and a definition in terms of itself (no finite derivation exists) are all
+reported.  Holds for every fuel and every set of types in progress (running out of fuel is
+reported as an error as well). -/
+theorem resolve_errors (env : Env) :
+    ∀ (fuel : Nat) (root : Mod) (scope : List Stmt) (t : Stmt) (stack : List TypeKey),
+      scopeKinds.contains t.kw = false →
+      (resolveTypeF env fuel root scope t stack).errs = [] → Resolvable env.reg root scope t := by
+  intro fuel
+  induction fuel with
+  | zero => intro root scope t stack _ h; simp [resolveTypeF] at h
+  | succ fuel ih =>
+    intro root scope t stack ht h
+    unfold resolveTypeF at h
+    simp only at h
+    split at h
+    · simp at h
+    · -- the member types, once the overlay is known to be error-free
+      have hmem : ∀ {src : Source} {tdY : YType},
+          (overlayType env root t src tdY
+            ((t.all "type").map fun ut => resolveTypeF env fuel root (t :: scope) ut (typeKey root t :: stack))).errs = [] →
+          ∀ ut ∈ t.all "type", Resolvable env.reg root (t :: scope) ut := by
+        intro src tdY ho ut hut
+        have := overlayType_errs_nil ho _ (List.mem_map_of_mem (f := fun ut =>
+          resolveTypeF env fuel root (t :: scope) ut (typeKey root t :: stack)) hut)
+        exact ih root (t :: scope) ut _ (type_not_scope (kw_of_all hut)) this
+      split at h
+      · simp at h
+      · rename_i y hl
+        have hb : builtinNames.contains t.arg = true := by
+          unfold lookup at hl
+          split at hl
+          · rename_i y' hy; exact builtin_some hy
+          · simp only at hl
+            split at hl
+            · split at hl
+              · cases hl
+              · split at hl <;> cases hl
+            · split at hl
+              · cases hl
+              · split at hl <;> cases hl
+        exact Resolvable.builtin hb (hmem h)
+      · rename_i src r hl
+        split at h
+        · simp at h
+        · rename_i tt htt
+          split at h
+          · -- the typedef's own type has errors: they are returned
+            rename_i hbase
+            simp only at h
+            rw [h] at hbase
+            simp at hbase
+          · rename_i hbase
+            have hbase' : (resolveTypeF env fuel r.root (r.td :: r.scope) tt (typeKey root t :: stack)).errs = [] := by
+              simpa using hbase
+            split at h
+            · simp at h
+            · split at h
+              · rename_i hne
+                simp only at h
+                rw [h] at hne
+                simp at hne
+              · split at h
+                · simp at h
+                · exact Resolvable.derived r.root r.td r.scope tt
+                    (resolve_binds env root scope t ht src r hl) htt
+                    (ih r.root (r.td :: r.scope) tt _ (type_not_scope (kw_of_one htt)) hbase')
+                    (hmem h)
 
 end Goyang.Props.C09
